@@ -35,6 +35,47 @@ CLAIMED = {
              "comparing the removal order and the resulting graph on generated circuits under controlled set orders.",
         note=TRUST + " Hypothesis `Good`: acyclic, no fan-in on inputs/blackbox outputs, no fan-out from blackbox inputs.",
         ref="§4 C16"),
+    "C01": dict(
+        technique="Lean 4 theorems (Tseitin soundness/completeness for every arity and order, xor-chain invariant, solver "
+                  "contract) about a model of sat.cnf whose clause templates are regenerated from sat.py each run + exact "
+                  "clause/numbering correspondence + brute-force search on solve()",
+        text="Proof: `cnf_sound`, `cnf_complete`, `cnf_projection` (models of cnf(c) restricted to nodes = consistent "
+             "valuations), `cnf_aux_determined`, `cnf_ok`, `solve_spec` (for any sound+complete solver: False iff no consistent "
+             "valuation agrees with the assumptions, else a consistent one), `solve_rejects_unknown`, `numbering_injective`, "
+             "`acyclic_unique`, `acyclic_exists` — for every clean circuit (all gate types, every fan-in, cyclic or not, "
+             "blackbox pins, any node names) and every set-iteration order. Clause templates, demotion table and the xor helper "
+             "are extracted from sat.py on every run (`tables_cnf` by decide); the chain loop is hand-modelled and compared "
+             "clause-by-clause (with IDPool numbering) against the real encoder.",
+        note=TRUST + " The SAT solver is an abstract parameter with an assumed sound-and-complete contract (pysat is absent; "
+             "the shim's answers are re-checked per case). Hypothesis `Clean`: typed, no `x`, single-input types have exactly one "
+             "driver, multi-input types at least one.",
+        ref="§4 C01"),
+    "C05": dict(
+        technique="Lean 4 theorems (gatemap_assoc over the extracted gate map, loop invariants with Refines) about line-by-line "
+                  "models of limit_fanin/limit_fanout + exact structural correspondence + exhaustive-simulation search "
+                  "(also for insert_registers and acyclic_unroll)",
+        text="Proof: `limit_fanin_spec` / `limit_fanout_spec`: for every lint-clean circuit (cyclic or not), every k>=2 and every "
+             "set-iteration order the call succeeds (incl. termination of uid), bounds hold for every node, inputs/outputs/"
+             "attributes of original nodes are unchanged, the result is lint-clean and `Refines` the original on every original "
+             "node; `gatemap_assoc` is proved over the table extracted from tx.py (the pre-fix `xnor->xnor` entry fails it); "
+             "`gateFn_perm`, `limit_rejects_small_k`. insert_registers (flops replaced by wires) and acyclic_unroll on acyclic "
+             "input are decided by exhaustive simulation on generated circuits only (search, not theorem) — that part of the "
+             "statement is partial.",
+        note=TRUST + " Hypothesis `hname`: nodes that must be split have names `add` accepts (not digit-leading) — the code raises "
+             "ValueError otherwise (witness in the Lean file).",
+        ref="§4 C05"),
+    "C07": dict(
+        technique="Lean 4 invariant proof by induction over operation histories (Inv preserved by every call, successful or "
+                  "raising) about the step function the driver executes + op-sequence differential correspondence + invariant "
+                  "oracle on the real graph",
+        text="Proof: `inv_step` for all eight operations with arbitrary arguments, `inv_reachable` for every finite history, "
+             "`reject_class`, `connect_reject_unchanged`, `reject_no_edge_partial` (the enumerated non-atomic calls K12a-c are "
+             "excluded and witnessed), `add_uid_fresh`. The type lists guarding add/connect are extracted from circuit.py each "
+             "run. Proof-forced hypotheses (each replayed on the real code and recorded as known findings K22/K24): the child "
+             "given to fill_blackbox has no blackbox pin marked output; a filled instance's present pins still have their pin "
+             "type and are not shared with another instance (FillOK/RunOK).",
+        note=TRUST + " State and exception class compared with the real Circuit after every call of random histories.",
+        ref="§4 C07"),
 }
 
 NOT_YET = "check not built yet in this round (see DESIGN.md §4 for the plan); will be claimed when its Lean model and harness exist"
